@@ -308,8 +308,8 @@ def run_shard(ctx, spec):
 
 
 def plan(tier, seed):
-    n = 600 if tier == "quick" else 12000
-    m = 400 if tier == "quick" else 6000
+    n = 5000 if tier == "quick" else 50000
+    m = 2500 if tier == "quick" else 20000
     return [("library", n // 16, i) for i in range(16)] + [("binary", m // 16, i) for i in range(16)]
 
 
